@@ -9,23 +9,11 @@ import GoFlags.Lemmas.GoSem
 namespace GoFlags.C20
 open GoFlags Bytes Generated
 
-/-- the body of `closestChoice`'s loop, as translated -/
-def ccBody (_cmd : Bytes) (lev : Bytes → Go.M Int) : Int → Bytes → Int × Int → Go.M (Go.LoopR (Bytes × Int) (Int × Int)) :=
-  fun i c st => do
-    let t_1 ← lev c
-    let l := t_1
-    if ((decide (st.2 < (0 : Int))) || (decide (l < st.1))) then do
-      let mindist := l
-      let mincmd := i
-      pure (Go.LoopR.next (mindist, mincmd))
-    else do
-      pure (Go.LoopR.next (st.1, st.2))
-
-theorem ccLoop (cmd : Bytes) (lev : Bytes → Go.M Int) (choices : List Bytes) :
+theorem ccLoop (cmd : Bytes) (choices : List Bytes) :
     ∀ (xs pre : List Bytes) (best : Bytes) (d : Nat) (k : Nat),
       choices = pre ++ xs → choices[k]? = some best →
-      (∀ c ∈ xs, lev c = some (levenshtein cmd c : Int)) →
-      ∃ k' : Nat, Go.forRangeFrom (ccBody cmd lev) xs pre.length ((d : Int), (k : Int)) =
+      (∀ c ∈ xs, go_levenshtein cmd c = some (levenshtein cmd c : Int)) →
+      ∃ k' : Nat, Go.forRangeFrom (go_closestChoice_loop1 cmd) xs pre.length ((d : Int), (k : Int)) =
           some (Go.LoopR.next (((closestLoop cmd xs best d).2 : Int), (k' : Int))) ∧
         choices[k']? = some (closestLoop cmd xs best d).1 := by
   intro xs
@@ -34,14 +22,14 @@ theorem ccLoop (cmd : Bytes) (lev : Bytes → Go.M Int) (choices : List Bytes) :
   | cons x xs ih =>
     intro pre best d k hc hk hl
     have hx := hl x (by simp)
-    have hl' : ∀ c ∈ xs, lev c = some (levenshtein cmd c : Int) := fun c hc => hl c (by simp [hc])
+    have hl' : ∀ c ∈ xs, go_levenshtein cmd c = some (levenshtein cmd c : Int) := fun c hc => hl c (by simp [hc])
     have hc' : choices = (pre ++ [x]) ++ xs := by simp [hc]
     have hidx : choices[pre.length]? = some x := by rw [hc]; simp
     by_cases hlt : levenshtein cmd x < d
     · obtain ⟨k', h1, h2⟩ := ih (pre ++ [x]) x (levenshtein cmd x) pre.length hc' hidx hl'
       refine ⟨k', ?_, ?_⟩
       · have : ((levenshtein cmd x : Nat) : Int) < (d : Int) := by omega
-        simp only [Go.forRangeFrom, ccBody, hx, bind, Option.bind, pure, this, decide_true, Bool.or_true, if_true]
+        simp only [Go.forRangeFrom, go_closestChoice_loop1, hx, bind, Option.bind, pure, this, decide_true, Bool.or_true, if_true]
         simp only [closestLoop, hlt, if_true]
         simpa using h1
       · simpa [closestLoop, hlt] using h2
@@ -49,7 +37,7 @@ theorem ccLoop (cmd : Bytes) (lev : Bytes → Go.M Int) (choices : List Bytes) :
       refine ⟨k', ?_, ?_⟩
       · have h3 : ¬ (((levenshtein cmd x : Nat) : Int) < (d : Int)) := by omega
         have h4 : ¬ ((k : Int) < 0) := by omega
-        simp only [Go.forRangeFrom, ccBody, hx, bind, Option.bind, pure, h3, h4, decide_false, Bool.or_false]
+        simp only [Go.forRangeFrom, go_closestChoice_loop1, hx, bind, Option.bind, pure, h3, h4, decide_false, Bool.or_false]
         simp only [closestLoop, hlt, if_false]
         simpa using h1
       · simpa [closestLoop, hlt] using h2
@@ -68,15 +56,15 @@ theorem trans_closestChoice_partial (cmd : Bytes) (choices : List Bytes)
   | nil => simp [go_closestChoice, Go.len, closestChoice]
   | cons c cs =>
     have hne : ¬ (Go.len (c :: cs) = 0) := by simp [Go.len]; omega
-    obtain ⟨k', h1, h2⟩ := ccLoop cmd (go_levenshtein cmd) (c :: cs) cs [c] c (levenshtein cmd c) 0 rfl rfl
+    obtain ⟨k', h1, h2⟩ := ccLoop cmd (c :: cs) cs [c] c (levenshtein cmd c) 0 rfl rfl
       (fun x hx => hlev x (by simp [hx]))
-    have hloop : Go.forRange (ρ := Bytes × Int) (c :: cs) ((-1 : Int), (-1 : Int)) (ccBody cmd (go_levenshtein cmd)) =
+    have hloop : Go.forRange (ρ := Bytes × Int) (c :: cs) ((-1 : Int), (-1 : Int)) (go_closestChoice_loop1 cmd) =
         some (Go.LoopR.next (((closestLoop cmd cs c (levenshtein cmd c)).2 : Int), (k' : Int))) := by
-      simp only [Go.forRange, Go.forRangeFrom, ccBody, hlev c (by simp), bind, Option.bind, pure]
+      simp only [Go.forRange, Go.forRangeFrom, go_closestChoice_loop1, hlev c (by simp), bind, Option.bind, pure]
       simpa using h1
     unfold go_closestChoice
     simp only [hne, decide_false]
-    show (Go.forRange (ρ := Bytes × Int) (c :: cs) ((-1 : Int), (-1 : Int)) (ccBody cmd (go_levenshtein cmd)) >>= _) = _
+    show (Go.forRange (ρ := Bytes × Int) (c :: cs) ((-1 : Int), (-1 : Int)) (go_closestChoice_loop1 cmd) >>= _) = _
     rw [hloop]
     simp only [bind, Option.bind, pure, Go.idx, closestChoice]
     have : (0:Int) ≤ (k' : Int) := by omega
